@@ -2375,6 +2375,11 @@ theorem inv_run (ops : List Op) (h : histOk init ops = true) : Inv (run init ops
 theorem run_ok (ops : List Op) (h : histOk init ops = true) : ∀ e ∈ (run init ops).2, e = none :=
   (inv_run_from ops init inv_init h).2
 
+/-- the executable invariant the driver prints (`modtable run …` → `inv true`) holds after every history
+that meets the precondition -/
+theorem invB_run (ops : List Op) (h : histOk init ops = true) : invB (run init ops).1 = true :=
+  (inv_run ops h).toInvB
+
 /-- the witness of commit 6850302 and more: packages with sub-modules added before and after the
 duplicate arrives, C modules, nested duplicates -/
 def sampleOps : List Op :=
